@@ -320,16 +320,21 @@ func lqSpecOf(in string) (string, bool) {
 func genLQFlow(r *Rng, i int, tier string) string {
 	workers := []int{1, 2, 3, 5, 12}[r.Intn(5)]
 	rounds := 1 + r.Intn(3)
-	if tier == "quick" && rounds > 2 {
-		rounds = 2
+	big := r.Chance(20) // a size-triggered batch needs 100 URLs
+	if tier == "quick" {
+		// every timer flush costs 5 s of wall time: mostly finisher batches that fill up, two rounds
+		workers = []int{1, 1, 2, 2, 3, 5}[r.Intn(6)]
+		if rounds > 2 {
+			rounds = 2
+		}
+		big = r.Chance(8)
 	}
 	npool := 2 + r.Intn(8)
-	big := r.Chance(20) // a size-triggered batch needs 100 URLs
 	var items []string
 	anyBad := false
 	allowBad := r.Chance(25)
 	for j := 0; j < npool; j++ {
-		t := pickText(r, allowBad)
+		t := pickText(r, allowBad, true)
 		if _, err := url.ParseRequestURI(t); err != nil {
 			anyBad = true
 		}
@@ -361,6 +366,16 @@ func genLQFlow(r *Rng, i int, tier string) string {
 	fin := []string{"0", "1", "2", "01", "0H", "H", "10H"}[r.Intn(7)]
 	if anyBad {
 		fin = "H"
+	}
+	if fin != "H" {
+		// rows get deleted: start the next round only after the deletes are through, so that the
+		// order of a Delete and a later Add of the same text is never in doubt (their hook points
+		// fire a moment after the commits)
+		for j, st := range steps {
+			if st == "W" {
+				steps[j] = "X"
+			}
+		}
 	}
 	in := fmt.Sprintf("w=%d fin=%s items=%s steps=%s", workers, fin, strings.Join(items, ";"), strings.Join(steps, ","))
 	lqPool.note(in)
@@ -434,7 +449,7 @@ func execLQFlow(in string) Result {
 		case "R":
 			q := h.items[e.I]
 			pev = append(pev, fmt.Sprintf("ORecv (%s, %s, %s)", coqHexS(q.V), coqHexS(q.Via), coqN(q.Hops)))
-			if !utf8.ValidString(unhex(q.V)) {
+			if !utf8.ValidString(unhex(q.V)) || !utf8.ValidString(unhex(q.Via)) {
 				tags["text:invalid-utf8"] = true
 			}
 			if _, err := url.ParseRequestURI(unhex(q.V)); err != nil {
